@@ -37,8 +37,8 @@ def run(ctx):
                       "before/after its pods, events handled / delayed / dropped) that end with a quiescence phase (informer catches "
                       "up, every queued event handled, one resync pass); monitors: never_kept / immutable_kept_sts / "
                       "default_released_by_event on every event and resync step, resync_pass_no_orphans and the K1 shape at the end")
-    plugincheck.run(ctx, "C03", THEOREMS, REFUTED, plugincheck.mon_c03, nrandom=(80, 800), per_config=(0, 1),
-                    extra_scenarios=plugincheck.policy_scenarios(ctx.rng, ctx, 150 if ctx.quick else 1500), incarnations=not ctx.quick)
+    plugincheck.run(ctx, "C03", THEOREMS, REFUTED, plugincheck.mon_c03, nrandom=(80, 800), per_config=(1, 1),
+                    extra_scenarios=plugincheck.policy_scenarios(ctx.rng, ctx, 150 if ctx.quick else 1500))
 
 
 def replay(ctx, path):
